@@ -234,12 +234,12 @@ static void FinishCmd(int idx) {
     vfs::disk->Write(s.depfile, DepfileText(s));
   }
   if (s.msvc && !s.notes_last)
-    for (const string& h : s.hidden) rc.output += "Note: including file: " + s.Spelled(h) + "\n";
+    for (const string& h : s.hidden) rc.output += s.msvc_prefix + s.Spelled(h) + "\n";
   rc.output += s.print;
   if (s.msvc && s.notes_last) {
     if (!rc.output.empty() && rc.output.back() != '\n') rc.output += "\n";
     for (size_t i = 0; i < s.hidden.size(); ++i)
-      rc.output += "Note: including file: " + s.Spelled(s.hidden[i]) + (i + 1 < s.hidden.size() ? "\n" : "");
+      rc.output += s.msvc_prefix + s.Spelled(s.hidden[i]) + (i + 1 < s.hidden.size() ? "\n" : "");
   }
   rc.status = 0;
   Record(Event::kFinish, idx, 0);
@@ -479,11 +479,15 @@ void SubprocessSet::Clear() {
     RunCmd& rc = g_cur.res->cmds[s->pid_];
     rc.killed = true;
     const CmdSpec& sp = rc.spec;
-    int touched = g_cur.cfg->allow_interrupt ? g_cur.ch->Choose(2) : 0;
+    // what the victim had done when the signal reached it: nothing yet; (part of) its outputs and its depfile; or its
+    // depfile only (a compiler writes the dependency file while it preprocesses, the object at the very end)
+    int touched = g_cur.cfg->allow_interrupt ? g_cur.ch->Choose(sp.valid && !sp.depfile.empty() ? 3 : 2) : 0;
     if (touched == 1 && sp.valid) {
       for (const string& o : sp.outs)
         if (vfs::disk->Write(o, "PARTIAL from killed " + sp.id() + "\n")) rc.wrote = true;
       if (!sp.depfile.empty()) vfs::disk->Write(sp.depfile, sp.outs[0] + ": \n");
+    } else if (touched == 2) {
+      vfs::disk->Write(sp.depfile, sp.outs[0] + ": \n");
     }
     Record(Event::kKilled, s->pid_);
     delete s;
